@@ -91,7 +91,16 @@ pub fn related_day(rng: &mut Rng, n: i64) -> i64 {
         n
       }
     }
-    11 => rng.range(FIRST, LAST),
+    11 => {
+      if rng.chance(1, 2) {
+        rng.range(FIRST, LAST)
+      } else {
+        // mirrored inside its year: the first days of January <-> the last days of December, and so on
+        let first = c.year_first(y);
+        let next = if y < 9999 { c.year_first(y + 1) } else { LAST + 1 };
+        first + (next - 1 - n)
+      }
+    }
     _ => {
       // the same month and day in a related year
       let y2 = related_year(rng, y, 1, 9999);
